@@ -92,6 +92,13 @@ def _probe_class():
             def bigres(self, x):
                 return b"x" * (2 * SMALL_MAX)
 
+            @rpc_method
+            def slow(self, x, dur):
+                # occupies the worker for `dur` seconds of virtual time
+                from harness import detsched as D
+                D.SCHED.yield_point("probe.slow", blocked_on=lambda: False, timeout=dur)
+                return ("slow", x)
+
         _probe_cls = Probe
     return _probe_cls
 
@@ -130,6 +137,10 @@ def gen_scenario(rng, allow_defects=True):
             by.append({"id": j, "cls": rng.choice(BY_CLASSES), "kind": rng.choice(["f", "f", "boom"]),
                        "blocking": rng.random() < 0.6})
         scn["by"] = by
+    if rng.random() < 0.3:
+        # a caller that gives up (rpc_timeout) while its request is still being served: leaves a stale entry in the
+        # pending table / a reply nobody waits for; the fault is injected before, between or after (virtual time)
+        scn["noise"] = {"dur": 5.0, "timeout": 1.0, "delay": rng.choice([0.0, 2.0, 2.0, 2.0, 7.0])}
     return scn
 
 
@@ -203,6 +214,7 @@ def run_real(scn, seed, policy="weighted", change_points=None, probe_after=True)
     bvec = ["-"] * len(by)
     futs = {}
     bfuts = {}
+    nres = []
     problems = []
     double_sets = []
 
@@ -317,6 +329,28 @@ def run_real(scn, seed, policy="weighted", change_points=None, probe_after=True)
                         bfuts[b["id"]] = fut
                         bvec[b["id"]] = classify(c, fut.wait)
                 threads.append(w.spawn(bystander, f"by{b['id']}"))
+        noise = scn.get("noise")
+        if noise:
+            from qmi.core.exceptions import QMI_RpcTimeoutException
+            p_n = cli.get_rpc_object_by_name("srv.o")
+
+            def noisy():
+                try:
+                    v = p_n.slow(99, noise["dur"], rpc_timeout=noise["timeout"])
+                    nres.append("v" if v == ("slow", 99) else f"crosstalk:{v!r}"[:60])
+                except D.SchedAbort:
+                    raise
+                except QMI_RpcTimeoutException:
+                    nres.append("t")
+                except QMI_MessageDeliveryException:
+                    nres.append("d")
+                except QMI_RuntimeException as e:
+                    nres.append("l" if "locked" in str(e) else f"x:{type(e).__name__}")
+                except BaseException as e:  # noqa
+                    nres.append(f"x:{type(e).__name__}")
+            threads.insert(0, w.spawn(noisy, "noise"))
+            if noise["delay"]:
+                D.SCHED.yield_point("fault.delay", blocked_on=lambda: False, timeout=noise["delay"])
         f = scn["fault"]
         if f == "remove":
             srv.remove_rpc_object(p_loc)
@@ -369,6 +403,7 @@ def run_real(scn, seed, policy="weighted", change_points=None, probe_after=True)
         problems.append("step-budget")
     return {"vec": "".join(v if len(v) == 1 else "x" for v in vec), "raw": list(vec), "deadlock": out.deadlock,
             "bvec": "".join(v if len(v) == 1 else "x" for v in bvec), "braw": list(bvec),
+            "noise": (nres[0] if nres else "-") if scn.get("noise") else None,
             "problems": problems, "steps": out.sched.steps if out.sched else 0,
             "loop_exc": [type(e).__name__ for e in (out.net.loop_exceptions if out.net else [])],
             "thread_errors": [f"{n}:{type(e).__name__}" for n, e in out.thread_errors]}
@@ -410,7 +445,13 @@ def oracle(scn, r):
                 and not (ACTIVE_DEFECTS & set(feats)):
             out.append(("bystander-affected:" + b["cls"], f"call {b} to another object / over another connection than the one hit by "
                                                            f"fault {scn['fault']} ended with {v}, expected {bnat[b['kind']]}"))
-    if "-" in r["vec"] or (r["deadlock"] and "-" not in r.get("bvec", "")):
+    nz = r.get("noise")
+    if nz is not None:
+        if nz == "-":
+            out.append(("call-waits-forever:gave-up-caller", f"the call with rpc_timeout has no outcome; scheduler: {str(r['deadlock'])[:120]}"))
+        elif nz.startswith(("x:", "crosstalk")):
+            out.append((f"unexpected-outcome:{nz[2:].split('(')[0]}", f"call with rpc_timeout: outcome {nz}"))
+    if "-" in r["vec"] or (r["deadlock"] and "-" not in r.get("bvec", "") and nz != "-"):
         # attribute every hanging call to a cause; one finding per distinct cause
         crashed = any("_RpcThread" in t for t in r["thread_errors"])
         has_funlock = "lock-handler-crash" in feats
